@@ -481,6 +481,48 @@ pub fn run(ctx: &Ctx, rep: &mut Report) {
         let acc = Acc::merged(accs);
         rep.add_space("hand parsers: 1..=7 card tokens x every combination of gap widths (lead/trail 0..=4, inner 1..=4) x {space, tab}", &acc, t0, "every byte layout of the separators up to width 4");
     }
+    // (d2b) every Unicode scalar value as THE separator between card tokens (two tokens for every scalar; 2..=7 tokens for
+    //       every whitespace scalar and a few look-alikes that are not whitespace)
+    {
+        let t0 = Instant::now();
+        let kind = monitor::kind_id("hand");
+        let cards = ["AS", "KD", "QH", "JC", "TS", "9D", "8H"];
+        let accs = par_parts(0x110, |p| {
+            let mut a = Acc::new(2);
+            let mut s = String::new();
+            monitor::beat(kind, &[(p as u64) << 12]);
+            for u in (p as u32) << 12..(p as u32 + 1) << 12 {
+                if let Some(ch) = char::from_u32(u) {
+                    let special = ch.is_whitespace() || matches!(u, 0x1c..=0x1f | 0x180e | 0x200b..=0x200d | 0x2060 | 0xfeff);
+                    let top = if special { 7 } else { 2 };
+                    for n in 2..=top {
+                        s.clear();
+                        for (k, c) in cards.iter().take(n).enumerate() {
+                            if k > 0 {
+                                s.push(ch);
+                            }
+                            s.push_str(c);
+                        }
+                        a.cases += 1;
+                        a.calls += 8;
+                        if ch.is_whitespace() {
+                            a.nontrivial += 1;
+                        }
+                        if let Verdict::Violated { .. } = judge(&Case::text("hand", &s, &[])) {
+                            match confirm(judge, Case::text("hand", &s, &[])) {
+                                Some(v) => a.violate(v),
+                                None => super::unreproduced("C12 separator-scalar verdict not reproduced"),
+                            }
+                        }
+                    }
+                }
+            }
+            a
+        });
+        let acc = Acc::merged(accs);
+        rep.guard("separator sweep met the 25 Unicode whitespace scalars", acc.nontrivial == 25 * 6, format!("{}", acc.nontrivial));
+        rep.add_space("hand parsers: every Unicode scalar value as the separator between two card tokens; 2..=7 tokens for every whitespace scalar and look-alike", &acc, t0, "whitespace per char::is_whitespace separates, everything else glues");
+    }
     // (d3) long texts: k filler tokens followed by one card, k up to 300 and around powers of two up to 65,536
     {
         let t0 = Instant::now();
